@@ -142,3 +142,9 @@ package flows
 //@   pure
 //@ interface Timeout.CategoryUUID
 //@   pure
+
+// ---- C19: a contact without a name is shown by id under the URN redaction policy
+//@ func (c *Contact) Format
+//@   requires c != nil && !isnil(env)
+//@   ensures [named] c.name != "" ==> result == c.name
+//@   ensures [redacted_by_id] (c.name == "" && env.RedactionPolicy() == envs.RedactionPolicyURNs) ==> result == strconv.Itoa(int(c.id))
